@@ -320,6 +320,16 @@ func c20() *core.Check {
 func exerciseKeyword(k string, cls byte) string {
 	lower := strings.ToLower(k)
 	if cls == 'F' {
+		// the fingerprint must be found by the real blacklist probe, in the
+		// upper-cased form of the key and in the lower-cased form fingerprints have
+		if len(k) >= 2 {
+			if !li.VerifSQLBlacklisted(k[1:]) || !li.VerifSQLBlacklisted(lower[1:]) {
+				return fmt.Sprintf("fingerprint entry %q is in the table but the blacklist probe does not find %q / %q", k, k[1:], lower[1:])
+			}
+		}
+		return ""
+	}
+	if false {
 		// the fingerprint must be found by the blacklist probe: build the
 		// fingerprint string and ask through a pass whose fingerprint equals it.
 		// Cheap direct probe: VerifSQLPassOn on an input cannot force an
